@@ -362,6 +362,13 @@ def rule_forms(check, rule):
             continue
         el = ('E', loop.target, loop.ctx)
         seen = set()
+        # the "marker seen" flag: the loop-carried variable that starts as False (whatever it is called)
+        flags = sorted(set(name for sp in loop.sub for name, vin in sp.env_in.items() if vin[0] == 'V' and vin[3] == K(False)))
+        if len(flags) != 1:
+            check.inconclusive(rule, site_of(fi, loop.node), '%s: the flag remembering that the marker was seen is not identified (%s)'
+                               % (fname, ', '.join(flags) or 'no loop-carried variable starting as False'), key='%s|flag' % fname)
+            continue
+        FLAG = flags[0]
         for sp in loop.sub:
             yes, no = _kind_lits(sp.lits, el)
             lits = dict(sp.lits)
@@ -370,7 +377,7 @@ def rule_forms(check, rule):
             for a, pol in sp.lits:
                 if a[0] == 'eq' and ('A', el, 'name') in a[1:] and mark in a[1:]:
                     eqm = pol
-                if a[0] == 'truthy' and a[1][0] == 'V' and a[1][1] == 'found':
+                if a[0] == 'truthy' and a[1][0] == 'V' and a[1][1] == FLAG:
                     fnd = pol
             adds = [x for x in sp.effects if x.kind == 'mut' and x.op == 'add' and x.args == (('A', el, 'name'),)]
             key = '%s|%s|found=%s,eq=%s|%s' % (fname, 'POK' if 'POK' in yes else 'other', fnd, eqm, sp.status)
@@ -378,7 +385,7 @@ def rule_forms(check, rule):
                 continue
             seen.add(key)
             st = site_of(fi, loop.node)
-            fout = sp.env_out.get('found')
+            fout = sp.env_out.get(FLAG)
             msg = None
             if 'POK' in yes:
                 if mode == 'from':
@@ -413,7 +420,7 @@ def rule_forms(check, rule):
             lits = dict(p.lits)
             f = None
             for a, pol in p.lits:
-                if a[0] == 'truthy' and a[1][0] == 'V' and a[1][1] == 'found':
+                if a[0] == 'truthy' and a[1][0] == 'V' and a[1][1] == FLAG:
                     f = pol
             key = '%s|end|found=%s' % (fname, f)
             if key in seen:
@@ -600,10 +607,15 @@ def rule_annotate_after_modifier(check, rule):
         if key not in seen:
             seen.add(key)
             ok_unwrap = False
+            cursor = None
             for e in unwrap:
                 for sp in e.sub:
+                    # the cursor of the unwrapping loop: the loop-carried variable that starts as the decorated object
+                    for name_, vin in sp.env_in.items():
+                        if vin[0] == 'V' and vin[3] == objp:
+                            cursor = name_
                     if any(a[0] == 'isinstance' and 'PokTranslator' in str(a[2]) and pol for a, pol in sp.lits):
-                        fo = sp.env_out.get('func')
+                        fo = sp.env_out.get(cursor) if cursor else None
                         apps = [x for x in sp.effects if x.kind == 'mut' and x.op == 'append']
                         if fo is not None and fo[0] == 'A' and fo[2] == 'func' and apps:
                             ok_unwrap = True
@@ -620,7 +632,7 @@ def rule_annotate_after_modifier(check, rule):
                 lp = p.effects[pi[0]]
                 rev = lp.target[0] == 'C' and lp.target[1] == 'reversed'
                 tgt = p.effects[si[-1]].target
-                if tgt[0] == 'V' and tgt[1] == 'func':
+                if tgt[0] == 'V' and tgt[1] == cursor:
                     check.holds(rule, st, 'the new __signature__ is written on the innermost function before every translator is re-prepared%s'
                                 % (' (innermost first)' if rev else ''), key=key + '|prepare')
                 else:
